@@ -167,7 +167,8 @@ LsVal(in, name) == LET ds == LsDefs(in) IN ds[MaxOf({i \in 1..Len(ds) : ds[i].na
 RECURSIVE LsApply(_, _, _, _)
 LsApply(in, txt, ord, i) == IF i > Len(ord) THEN txt
                             ELSE LsApply(in, ReplaceAll(txt, ord[i], LsVal(in, ord[i])), ord, i + 1)
-Orders(S) == {q \in [1..Cardinality(S) -> S] : \A i, j \in 1..Cardinality(S) : i # j => q[i] # q[j]}
+RECURSIVE Orders(_)          \* all orders (sequences without repetition) of the elements of S
+Orders(S) == IF S = {} THEN {<<>>} ELSE UNION { { <<x>> \o q : q \in Orders(S \ {x}) } : x \in S }
 LsResults(in) == {Str(LsApply(in, in.script, ord, 1)) : ord \in Orders(LsNames(in))}
 LsAbort(in) == in.have # "both" \/ LsBad(in)
 LsJudge(in, out, D) ==
